@@ -185,6 +185,10 @@ fn check_state(
     }
 }
 
+/// A seed whose search passes this many distinct states is cut short (and says so): the
+/// memory of a worker is bounded.
+const MAX_STATES_PER_SEED: usize = 150_000;
+
 pub fn judge_seed(seed: &Program, depth: usize, sink: Option<&mut Sink>) -> Outcome {
     let printed = print(seed);
     let seed_doc = match emitted(&printed.texts) {
@@ -211,6 +215,7 @@ pub fn judge_seed(seed: &Program, depth: usize, sink: Option<&mut Sink>) -> Outc
     let mut queue: VecDeque<(Program, Vec<&'static str>)> = VecDeque::new();
     queue.push_back((seed.clone(), vec![]));
     let mut bad: Option<Outcome> = None;
+    let mut capped = false;
     'bfs: while let Some((prog, trail)) = queue.pop_front() {
         let texts = print(&prog).texts;
         // text-level trivia insertion: terminal transitions, from the seed
@@ -243,7 +248,14 @@ pub fn judge_seed(seed: &Program, depth: usize, sink: Option<&mut Sink>) -> Outc
                     bad = Some(o);
                     break 'bfs;
                 }
-                queue.push_back((step.program, tr));
+                // states of the last level are judged, never expanded: they need not be kept
+                if tr.len() < depth {
+                    queue.push_back((step.program, tr));
+                }
+                if seen.len() > MAX_STATES_PER_SEED {
+                    capped = true;
+                    break 'bfs;
+                }
             }
         }
     }
@@ -256,6 +268,7 @@ pub fn judge_seed(seed: &Program, depth: usize, sink: Option<&mut Sink>) -> Outc
     }
     match bad {
         Some(o) => o,
+        None if capped => Outcome::ok("all states reached before the per-seed cap equal the seed (search capped)", Some(hash_of(&(print(seed).texts, s.states)))),
         None => Outcome::ok("all reachable states equal the seed", Some(hash_of(&(print(seed).texts, s.states)))),
     }
 }
